@@ -3,7 +3,8 @@
 import json, os, sys
 HERE = os.path.dirname(os.path.abspath(__file__))
 sys.path.insert(0, os.path.dirname(HERE))
-from tools.props import PROPS, NOT_APPLICABLE, LEVEL
+from tools.props import PROPS as ALLPROPS, NOT_APPLICABLE, LEVEL, CLAIMED
+PROPS = {k: v for k, v in ALLPROPS.items() if k in CLAIMED}
 
 BASELINE = ("cd /repo && /venv/bin/python -m pytest -ra -q -p no:cacheprovider --timeout=900 "
             "--continue-on-collection-errors")
